@@ -39,6 +39,11 @@ pub enum Amf0SerializationError {
     #[error("String length greater than 65,535")]
     NormalStringTooLong,
 
+    /// Object properties must have a non-empty name, as an empty name marks the end of an
+    /// object in the encoded form and the resulting bytes could not be read back.
+    #[error("Object property names cannot be empty")]
+    EmptyObjectPropertyName,
+
     /// An I/O error occurred while writing to the output buffer.
     #[error("Failed to write to byte buffer")]
     BufferWriteError(#[from] io::Error),
